@@ -375,6 +375,24 @@ func (P *Prog) addEdgeFacts(fs factSet, cond *Term, val bool, at ssa.Instruction
 			P.addEdgeFacts(fs, a, false, at)
 		}
 	}
+	// comparisons with the builtin max / min of several operands determine
+	// the comparison with each operand in one polarity:
+	//   !(S < max(a..)), max(a..) < S, max(a..) <= S   hold for every a
+	//   S < min(a..), S <= min(a..), !(min(a..) < S)   hold for every a
+	if f.Pred.Op == "binop" && (f.Pred.S == "<" || f.Pred.S == "<=") && len(f.Pred.Args) == 2 {
+		l, rgt := f.Pred.Args[0], f.Pred.Args[1]
+		each := func(m *Term, mk func(a *Term) *Term) {
+			for _, a := range m.Args {
+				P.addEdgeFacts(fs, mk(a), f.Val, at)
+			}
+		}
+		switch {
+		case rgt.Op == "max" && !f.Val, rgt.Op == "min" && f.Val:
+			each(rgt, func(a *Term) *Term { return &Term{Op: "binop", S: f.Pred.S, Args: []*Term{l, a}} })
+		case l.Op == "max" && f.Val, l.Op == "min" && !f.Val:
+			each(l, func(a *Term) *Term { return &Term{Op: "binop", S: f.Pred.S, Args: []*Term{a, rgt}} })
+		}
+	}
 	// ok(call): (res<i>(call f ...) == nil) true, or (call f == nil) true
 	if f.Val && f.Pred.Op == "binop" && f.Pred.S == "==" {
 		var other *Term
